@@ -226,11 +226,51 @@ pub trait DstObj {
     /// the fat pointer's metadata: the element count of the typed view's
     /// dynamically sized tail
     fn meta(&self) -> usize;
+    fn as_any(&self) -> &dyn std::any::Any;
+    /// `self == other` with the type's own `PartialEq`; `None` when `other`
+    /// is not the same type
+    fn eq_dyn(&self, other: &dyn DstObj) -> Option<bool>;
     /// `clone_dyn` of the real crate, inside the allocator scope.
     fn clone_dyn(&self) -> Box<dyn DstObj>;
 }
 
-impl<T: MaybeDynSized<Metadata = usize> + ?Sized + 'static> DstObj for Box<T> {
+/// The type's own `==`, where it has one (`NetworkTag` does not).
+pub trait EqProbe {
+    fn probe_eq(&self, other: &Self) -> Option<bool>;
+}
+impl<H: multiboot2_common::Header + PartialEq> EqProbe for mb::DynSizedStructure<H> {
+    fn probe_eq(&self, other: &Self) -> Option<bool> {
+        Some(self == other)
+    }
+}
+macro_rules! eq_probe {
+    ($($t:ty),*) => {$(
+        impl EqProbe for $t {
+            fn probe_eq(&self, other: &Self) -> Option<bool> {
+                Some(self == other)
+            }
+        }
+    )*};
+}
+eq_probe!(
+    DummyDstTag,
+    mb::CommandLineTag,
+    mb::BootLoaderNameTag,
+    mb::ModuleTag,
+    mb::MemoryMapTag,
+    mb::FramebufferTag,
+    mb::ElfSectionsTag,
+    mb::SmbiosTag,
+    mb::EFIMemoryMapTag,
+    mh::InformationRequestHeaderTag
+);
+impl EqProbe for mb::NetworkTag {
+    fn probe_eq(&self, _other: &Self) -> Option<bool> {
+        None
+    }
+}
+
+impl<T: MaybeDynSized<Metadata = usize> + EqProbe + ?Sized + 'static> DstObj for Box<T> {
     fn image(&self) -> Result<Vec<u8>, String> {
         image_of::<T>(self)
     }
@@ -246,6 +286,12 @@ impl<T: MaybeDynSized<Metadata = usize> + ?Sized + 'static> DstObj for Box<T> {
     fn meta(&self) -> usize {
         ptr_meta::metadata::<T>(&**self as *const T)
     }
+    fn as_any(&self) -> &dyn std::any::Any {
+        self
+    }
+    fn eq_dyn(&self, other: &dyn DstObj) -> Option<bool> {
+        other.as_any().downcast_ref::<Box<T>>().and_then(|o| (**self).probe_eq(&**o))
+    }
     fn clone_dyn(&self) -> Box<dyn DstObj> {
         let c: Box<T> = {
             let _s = Scope::enter();
@@ -255,7 +301,7 @@ impl<T: MaybeDynSized<Metadata = usize> + ?Sized + 'static> DstObj for Box<T> {
     }
 }
 
-fn mk<T: MaybeDynSized<Metadata = usize> + ?Sized + 'static>(h: T::Header, slices: &[&[u8]]) -> Box<dyn DstObj> {
+fn mk<T: MaybeDynSized<Metadata = usize> + EqProbe + ?Sized + 'static>(h: T::Header, slices: &[&[u8]]) -> Box<dyn DstObj> {
     let b: Box<T> = {
         let _s = Scope::enter();
         multiboot2_common::new_boxed::<T>(h, slices)
@@ -546,6 +592,17 @@ impl Interp {
                 self.viol(clause, k, format!("{what}: the typed view has {got} trailing elements, expected {want} for {} content bytes", total - kind.header_len()));
             }
         }
+        // ... and for content the kind's rule does not accept (where the
+        // unchanged tree panics by contract): if an object comes back at all,
+        // its typed view must at least stay inside the content
+        if total >= kind.header_len() && !kind.content_ok(total - kind.header_len()) {
+            let (min, div) = kind.rule();
+            let got = obj.meta();
+            let content = total - kind.header_len();
+            if min + got * div > content {
+                self.viol("metadata", k, format!("{what}: the typed view ({min} fixed bytes and {got} trailing elements of {div}) reaches past the {content} content bytes"));
+            }
+        }
         let sov = obj.size_of_val();
         if sov != round_up8(total) {
             self.viol("size-of-val", k, format!("{what}: size_of_val = {sov}, expected {}", round_up8(total)));
@@ -644,7 +701,7 @@ impl Interp {
         let raw: &mut [u8] = unsafe { std::slice::from_raw_parts_mut(store.as_mut_ptr().cast::<u8>(), words * 8) };
         raw[..model.len()].copy_from_slice(&model);
         let raw: &[u8] = raw;
-        fn go<H: multiboot2_common::Header + 'static>(raw: &[u8]) -> Option<Box<dyn DstObj>> {
+        fn go<H: multiboot2_common::Header + PartialEq + 'static>(raw: &[u8]) -> Option<Box<dyn DstObj>> {
             let src = mb::DynSizedStructure::<H>::ref_from_slice(raw).ok()?;
             let c: Box<mb::DynSizedStructure<H>> = {
                 let _s = Scope::enter();
@@ -787,6 +844,13 @@ impl Interp {
         self.probes.hit(&format!("clone_dyn/{}/residue{}", kind.name(), model.len() % 8));
         match res {
             Call::Ok(c) => {
+                // "yields an equal tag", taken literally as well: the type's
+                // own `==` between source and clone
+                if let Some(Obj::Dst { obj, .. }) = self.objs.get(src).and_then(|o| o.as_ref()) {
+                    if obj.eq_dyn(&*c) == Some(false) {
+                        self.viol("clone-eq", kind.name(), "clone_dyn(x) == x is false".into());
+                    }
+                }
                 let img = self.check_dst_object(kind, &*c, &model, "clone_dyn");
                 let n = model.len();
                 self.note(&[5, kind as u64], img.as_deref().map(|i| &i[..n.min(i.len())]).unwrap_or(&[]));
